@@ -280,6 +280,23 @@ fn rust_oracle(c: &Case, part: &[R]) -> Option<Vec<String>> {
     }
 }
 
+/// a finite list of batches presented as one partition of an "unbounded" streaming table
+#[derive(Debug)]
+struct VecStream {
+    schema: SchemaRef,
+    batches: Vec<RecordBatch>,
+}
+
+impl datafusion::physical_plan::streaming::PartitionStream for VecStream {
+    fn schema(&self) -> &SchemaRef {
+        &self.schema
+    }
+    fn execute(&self, _ctx: Arc<datafusion::execution::TaskContext>) -> datafusion::execution::SendableRecordBatchStream {
+        let it = self.batches.clone().into_iter().map(Ok);
+        Box::pin(datafusion::physical_plan::stream::RecordBatchStreamAdapter::new(Arc::clone(&self.schema), futures::stream::iter(it)))
+    }
+}
+
 pub fn run(run: &mut Run, args: &Args) {
     hutil::quiet_panics();
     let mut rng = Rng::new(args.seed);
@@ -292,10 +309,23 @@ pub fn run(run: &mut Run, args: &Args) {
         let frame = if c.has_frame { format!(" {} BETWEEN {} AND {}", c.kind.to_uppercase(), c.s.sql(), c.e.sql()) } else { String::new() };
         let sql = format!("SELECT id, {}({}) OVER (PARTITION BY p ORDER BY {order}{frame}) AS w FROM t", c.f, c.fargs_sql);
         // table layout
-        let nparts = 1 + rng.below(3) as usize;
+        // a quarter of the ORDER-BY-k-only cases read an "unbounded" streaming source that is already
+        // ordered by k: the planner cannot sort it and runs BoundedWindowAggExec in Linear /
+        // PartiallySorted input-order mode (or rejects the query at planning)
+        let streaming = !c.tiebreak && !extremes && rng.chance(1, 3); // (keys near the i64 limits stay on the MemTable path: the model encodes that path's overflow behaviour)
+        let nparts = if streaming { 1 } else { 1 + rng.below(3) as usize };
         let mut parts: Vec<Vec<R>> = vec![vec![]; nparts];
         for r in &c.rows {
             parts[rng.below(nparts as u64) as usize].push(r.clone());
+        }
+        if streaming {
+            use std::cmp::Ordering::*;
+            parts[0].sort_by(|a, b| match (a.k, b.k) {
+                (None, None) => Equal,
+                (None, Some(_)) => if c.nf { Less } else { Greater },
+                (Some(_), None) => if c.nf { Greater } else { Less },
+                (Some(x), Some(y)) => if c.desc { y.cmp(&x) } else { x.cmp(&y) },
+            });
         }
         let maxb = *rng.pick(&[1usize, 3, 16]);
         let batches: Vec<Vec<RecordBatch>> = parts
@@ -312,12 +342,21 @@ pub fn run(run: &mut Run, args: &Args) {
             })
             .collect();
         let bs = *rng.pick(&[1usize, 2, 3, 8, 8192]);
-        let tp = 1 + rng.below(3) as usize;
+        let tp = if streaming { 1 } else { 1 + rng.below(3) as usize };
         let ctx = SessionContext::new_with_config(SessionConfig::new().with_batch_size(bs).with_target_partitions(tp));
         let res = hutil::catch(std::panic::AssertUnwindSafe(|| {
             rt.block_on(async {
-                let t = MemTable::try_new(schema(), batches.clone()).map_err(|e| e.to_string())?;
-                ctx.register_table("t", Arc::new(t)).map_err(|e| e.to_string())?;
+                if streaming {
+                    let ps: Arc<dyn datafusion::physical_plan::streaming::PartitionStream> = Arc::new(VecStream { schema: schema(), batches: batches[0].clone() });
+                    let t = datafusion::catalog::streaming::StreamingTable::try_new(schema(), vec![ps])
+                        .map_err(|e| e.to_string())?
+                        .with_infinite_table(true)
+                        .with_sort_order(vec![datafusion::prelude::col("k").sort(!c.desc, c.nf)]);
+                    ctx.register_table("t", Arc::new(t)).map_err(|e| e.to_string())?;
+                } else {
+                    let t = MemTable::try_new(schema(), batches.clone()).map_err(|e| e.to_string())?;
+                    ctx.register_table("t", Arc::new(t)).map_err(|e| e.to_string())?;
+                }
                 tokio::time::timeout(Duration::from_secs(60), async {
                     let df = ctx.sql(&sql).await.map_err(|e| format!("plan: {e}"))?;
                     let plan = df.clone().create_physical_plan().await.map_err(|e| format!("plan: {e}"))?;
@@ -346,6 +385,9 @@ pub fn run(run: &mut Run, args: &Args) {
             }
             Ok(Ok(x)) => x,
         };
+        if streaming {
+            run.count(if shown.contains("mode=[Linear]") { "streaming source: Linear mode" } else if shown.contains("mode=[PartiallySorted") { "streaming source: PartiallySorted mode" } else { "streaming source: other plan" });
+        }
         run.count(if shown.contains("BoundedWindowAggExec") { "exec:BoundedWindowAggExec" } else { "exec:WindowAggExec" });
         run.count(&format!("fn:{}", c.f));
         run.count(&format!("frame:{}", if c.has_frame { c.kind } else { "default" }));
